@@ -1,2 +1,108 @@
-(* C06 placeholder, theorems below *)
-From Anko Require Import Interp.Equal.
+(* C06 — equality is one coherent relation.  [equal] is the model of vm.equal (Interp/Equal.v);
+   ==, !=, `in` and switch all go through it in the interpreter model. *)
+From Coq Require Import String List ZArith Bool Arith Floats.SpecFloat.
+From Anko Require Import Base.Int64 Base.F64 Env.EnvModel Interp.Ast Interp.Value Interp.ToX Interp.Equal Interp.Model
+     Interp.EqualProofs.
+Import ListNotations.
+
+(* == is symmetric for every pair of nil / boolean / integer / float / string values *)
+Theorem eq_symmetric : forall orc st a b, scalar a -> scalar b ->
+  tri_sym (equal orc st a b) (equal orc st b a).
+Proof. exact equal_sym_scalar. Qed.
+
+(* != is the exact negation of ==, for every pair of literal operands *)
+Theorem neq_is_negation : forall orc cancel f la lb s,
+  let eqv := exec orc cancel (S (S f)) (CExpr (EOp (OCompare (ELit la) "==" (ELit lb)))) s in
+  let nev := exec orc cancel (S (S f)) (CExpr (EOp (OCompare (ELit la) "!=" (ELit lb)))) s in
+  match equal orc (r_st s) (lit_value la) (lit_value lb) with
+  | TOk b => eqv = Ok (set_rv s (Imm (VBool b))) /\ nev = Ok (set_rv s (Imm (VBool (negb b))))
+  | _ => True
+  end.
+Proof.
+  intros orc cancel f la lb s. cbn. destruct (equal orc (r_st s) (lit_value la) (lit_value lb)); auto.
+Qed.
+
+(* membership uses the same relation *)
+Theorem in_uses_equal : forall orc st item v,
+  include_loop orc st item [v] =
+    match equal orc st item v with
+    | TOk true => TOk true
+    | TOk false | TErr => TOk false
+    | TMiss w => TMiss w
+    end.
+Proof. intros orc st item v. cbn. destruct (equal orc st item v) as [[|]| |]; reflexivity. Qed.
+
+(* switch matches a case exactly when equal(case value, subject) holds *)
+Theorem switch_uses_equal : forall orc rec e r value body env0 s next s1 b,
+  rec (CExpr e) s = Ok s1 ->
+  equal orc (r_st s1) (deref (r_st s1) (r_rv s1)) value = TOk b ->
+  switch_case_exprs orc rec (e :: r) value body env0 s next =
+    if b then match rec (CStmt body) s1 with
+              | Abort a => Abort a
+              | Ok s2 => Ok (set_env s2 env0)
+              | Err er s2 => Err er (set_env s2 env0)
+              end
+    else switch_case_exprs orc rec r value body env0 s1 next.
+Proof.
+  intros orc rec e r value body env0 s next s1 b He Hq. cbn [switch_case_exprs]. rewrite He, Hq. reflexivity.
+Qed.
+
+(* same primitive type: Go's == *)
+Theorem eq_same_primitive : forall orc st,
+  (forall x y, equal orc st (VInt x) (VInt y) = TOk (Z.eqb x y)) /\
+  (forall x y, equal orc st (VFloat x) (VFloat y) = TOk (feqb x y)) /\
+  (forall x y, equal orc st (VBool x) (VBool y) = TOk (Bool.eqb x y)) /\
+  (forall x y, equal orc st (VStr x) (VStr y) = TOk (String.eqb x y)).
+Proof.
+  intros orc st. split; [intros; apply equal_ints|]. split; [intros; apply equal_floats|]. split; [intros; apply equal_bools|intros; apply equal_strings].
+Qed.
+
+(* an integer and a float are equal exactly when both <= and >= hold between them *)
+Theorem eq_int_float_is_le_and_ge : forall orc st i f,
+  equal orc st (VInt i) (VFloat f) = TOk (fleb (of_int i) f && fleb f (of_int i)) /\
+  equal orc st (VFloat f) (VInt i) = TOk (fleb f (of_int i) && fleb (of_int i) f).
+Proof. intros. split; [apply equal_int_float|apply equal_float_int]. Qed.
+
+(* nil equals only nil *)
+Theorem eq_nil_only_nil : forall orc st b, equal orc st VNil b = TOk (is_nil b).
+Proof. exact nil_equals_only_nil. Qed.
+
+(* a string and a number are equal exactly when the string is a decimal numeral denoting that number *)
+Theorem eq_string_integer_numeral : forall orc st s n z,
+  str_to_int s = Some z ->
+  equal orc st (VStr s) (VInt n) = TOk (Z.eqb z n) /\ equal orc st (VInt n) (VStr s) = TOk (Z.eqb n z).
+Proof. intros. split; [now apply equal_string_int|now apply equal_int_string]. Qed.
+
+Theorem eq_string_not_numeral : forall orc st s n,
+  str_to_int s = None -> str_to_float orc s = TErr ->
+  equal orc st (VStr s) (VInt n) = TOk false /\ equal orc st (VInt n) (VStr s) = TOk false.
+Proof. exact equal_string_not_a_numeral. Qed.
+
+(* the integer numerals accepted are exactly the decimal spellings of int64 values *)
+Theorem integer_numeral_in_range : forall s z, str_to_int s = Some z -> in_int64b z = true.
+Proof.
+  intros s z. unfold str_to_int.
+  destruct (has_prefix "0x" s); [discriminate|]. destruct (has_prefix "0b" s); [discriminate|].
+  unfold parse_int_dec.
+  destruct s as [|c r]; cbn.
+  - discriminate.
+  - match goal with |- match ?b with _ => _ end = _ -> _ => destruct b as [[neg digits]|] end; [|discriminate].
+    destruct (Base.Sexp.N_of_string digits); [|discriminate].
+    match goal with |- (if ?c then _ else _) = _ -> _ => destruct c eqn:E end; [|discriminate].
+    intros [= <-]. exact E.
+Qed.
+
+Print Assumptions eq_symmetric.
+Print Assumptions neq_is_negation.
+Print Assumptions in_uses_equal.
+Print Assumptions switch_uses_equal.
+Print Assumptions eq_int_float_is_le_and_ge.
+Print Assumptions eq_string_integer_numeral.
+
+Open Scope string_scope.
+Example ex_c06 :
+  equal (mkOracle [] []) (mkStore [] [] [] [] [] 0) (VInt 1000000) (VFloat (of_int 1000000)) = TOk true /\
+  equal (mkOracle [] []) (mkStore [] [] [] [] [] 0) (VStr "1000000") (VInt 1000000) = TOk true /\
+  equal (mkOracle [] []) (mkStore [] [] [] [] [] 0) (VInt 1000000) (VStr "1000000") = TOk true /\
+  equal (mkOracle [] []) (mkStore [] [] [] [] [] 0) (VInt 0) (VFloat (S754_zero true)) = TOk true.
+Proof. vm_compute. repeat split. Qed.
